@@ -226,7 +226,7 @@ def _replay_smt(args):
 def _replay_set_progress(a):
     clock = {"t": float(a["last"])}
     saved = pbmod.time
-    pbmod.time = type("T", (), {"time": staticmethod(lambda: clock["t"])})
+    pbmod.time = _virtual_time(clock)
     try:
         bar = ProgressBar(Output(BufferedOutputStream(), AnsiFormatter(forced=True)), int(a["max0"]), 0)
         bar._step = int(a["step0"])
@@ -251,6 +251,13 @@ def _replay_set_progress(a):
 
 
 # ------------------------------------------------------------------------------------------------ E1
+
+def _virtual_time(clock):
+    """A stand-in for the `time` module: every clock the library might read is the virtual one, everything else is the real module's."""
+    read = staticmethod(lambda: clock["t"])
+    return type("T", (), {"time": read, "monotonic": read, "perf_counter": read, "sleep": staticmethod(lambda s: None),
+                          "__getattr__": lambda self, name: getattr(_time, name)})()
+
 
 OPS = ["adv1", "adv3", "set_mid", "set_over", "set_neg", "display", "clear", "start"]
 DELTAS = [0.0, 0.05, 2.0]
@@ -300,7 +307,7 @@ class Screen:
 def _sequence_case(kind, mx, bw, ops, deltas):
     clock = {"t": 1000.0}
     saved = pbmod.time
-    pbmod.time = type("T", (), {"time": staticmethod(lambda: clock["t"])})
+    pbmod.time = _virtual_time(clock)
     try:
         st = BufferedOutputStream()
         ansi = kind in ("ansi", "section", "quiet")
@@ -447,7 +454,7 @@ def _custom_case(kind, fmtkind, mx, bw, ops, deltas):
     import clikit.utils.terminal as termmod
     clock = {"t": 1000.0}
     saved, saved_w = pbmod.time, termmod.Terminal.width
-    pbmod.time = type("T", (), {"time": staticmethod(lambda: clock["t"])})
+    pbmod.time = _virtual_time(clock)
     termmod.Terminal.width = property(lambda self: W_C[fmtkind])
     try:
         st = BufferedOutputStream()
